@@ -242,7 +242,8 @@ def mask_edges(k, mask):
 
 
 def shape_features(k, edges):
-    """Coarse shape class of a rooted digraph (used in violation signatures)."""
+    """Coarse shape class of a rooted digraph (used in violation signatures): independent of the number of
+    parts; 'chain' is reported only when nothing cyclic/shared is present."""
     es = sorted(set((s, t) for s, t in edges))
     feats = []
     if any(s == t for s, t in es):
@@ -265,9 +266,9 @@ def shape_features(k, edges):
             indeg[t] = indeg.get(t, 0) + 1
     if any(v >= 2 for v in indeg.values()):
         feats.append("shared-target")
-    if any((-1, j) not in es for j in range(k)):
-        feats.append("indirect")
-    return "k%d:" % k + ("+".join(feats) if feats else "tree")
+    if not feats and any((-1, j) not in es for j in range(k)):
+        feats.append("chain")   # some part hangs off another part only
+    return "+".join(feats) if feats else "star"
 
 
 def star(k):
